@@ -354,6 +354,7 @@ func verifC05(n Name) (base []byte, parts [][]byte, b2 []byte) {
 //@   requires r != nil && internsOK(r) && len(line) >= 9
 //@   modifies r, r.interns, r.result.Values
 //@   ensures readerFrame(deref(r), old(deref(r))) && internsOK(r)
+//@   ensures ref(r.result.Values) == old(ref(r.result.Values)) || fresh(r.result.Values)
 //@   ensures serr == nil ==> len(r.result.Values) >= 1 && forall i int :: 0 <= i < len(r.result.Values) ==> valueOK(r.result.Values[i])
 //@   ensures serr == nil ==> !errseen()
 //@   loop 1:
@@ -371,3 +372,56 @@ func verifC05(n Name) (base []byte, parts [][]byte, b2 []byte) {
 //@   props C04
 //@   ensures has(m, mkstruct(UnitMetadataKey, benchunit.Tidy_1(1.0, unit), key)) ==> u == m[mkstruct(UnitMetadataKey, benchunit.Tidy_1(1.0, unit), key)]
 //@   ensures !has(m, mkstruct(UnitMetadataKey, benchunit.Tidy_1(1.0, unit), key)) ==> u == nil
+
+// ---------------------------------------------------------------------------
+// The line loop (C02) and unit metadata lines (C02, C04)
+
+//@ pure func readerOK(r *Reader) bool = r.s != nil && internsOK(r) && r.units != nil && cfgOKV(r.result) && cfgSepV(r.result) && 0 <= r.qPos <= len(r.q)
+
+// unitsOK: every piece of unit metadata is stored under its own key, and that
+// key's unit is the normalised spelling of the unit as written.
+//@ pure func unitsOK(m map[UnitMetadataKey]*UnitMetadata) bool = forall k UnitMetadataKey :: has(m, k) ==>
+//@     m[k] != nil && m[k].UnitMetadataKey == k && k.Unit == benchunit.Tidy_1(1.0, m[k].OrigUnit)
+
+// What a unit line may change: the queue, the interning table and the unit table.
+//@ pure func unitLineFrame(a Reader, b Reader) bool = a.s == b.s && a.err == b.err && a.qPos == b.qPos &&
+//@     a.units == b.units && a.interns == b.interns && a.result == b.result
+
+//@ func (r *Reader) isUnitLine(line []byte) (rest []byte, ok bool)
+//@   props C02
+//@   ensures ok ==> len(rest) == 0 || sub(rest, line)
+//@   ensures !ok ==> rest == nil
+
+//@ func (r *Reader) parseUnitLine(line []byte)
+//@   props C02 C04
+//@   requires r != nil && internsOK(r) && r.units != nil && unitsOK(r.units)
+//@   modifies r, r.q, r.interns, r.units
+//@   ensures unitLineFrame(deref(r), old(deref(r))) && internsOK(r) && unitsOK(r.units)
+//@   ensures len(r.q) >= old(len(r.q)) && (ref(r.q) == old(ref(r.q)) || fresh(r.q))
+//@   ensures forall k UnitMetadataKey :: old(has(r.units, k)) ==> has(r.units, k) && r.units[k] == old(r.units[k])
+//@   loop 1:
+//@     invariant unitLineFrame(deref(r), old(deref(r))) && internsOK(r) && unitsOK(r.units) && len(r.q) >= old(len(r.q))
+//@     invariant unchanged(r, r.q, old(r.q), r.interns, r.units) && (ref(r.q) == old(ref(r.q)) || fresh(r.q))
+//@     invariant tidyUnit == benchunit.Tidy_1(1.0, unit)
+//@     invariant forall k UnitMetadataKey :: old(has(r.units, k)) ==> has(r.units, k) && r.units[k] == old(r.units[k])
+//@     decreases len(line)
+
+// Scan keeps the reader's representation invariants (well-formed configuration
+// index, interning table, unit table keyed by normalised units), never indexes
+// or slices out of range, stops for good once an error is recorded, and
+// reports a record only when one is queued.
+//@ func (r *Reader) Scan() (ok bool)
+//@   props C02
+//@   nooverflow
+//@   requires r != nil && readerOK(r) && unitsOK(r.units)
+//@   modifies r, r.q, r.interns, r.units, r.result.configPos, r.result.Values, heap(Config), heap(byte)
+//@   ensures readerOK(r) && unitsOK(r.units)
+//@   ensures old(r.err) != nil ==> !ok && r.err == old(r.err) && r.qPos == old(r.qPos) && r.q === old(r.q)
+//@   ensures ok ==> 0 <= r.qPos < len(r.q)
+//@   ensures r.units == old(r.units) && r.interns == old(r.interns)
+//@   loop 1:
+//@     invariant readerOK(r) && unitsOK(r.units) && r.err == nil && r.qPos == 0 && r.units == old(r.units) && r.interns == old(r.interns)
+//@     invariant ref(r.q) == old(ref(r.q)) || fresh(r.q)
+//@     invariant ref(r.result.Values) == old(ref(r.result.Values)) || fresh(r.result.Values)
+//@     invariant r.result.configPos == old(r.result.configPos) || fresh(r.result.configPos)
+//@     invariant unchanged(r, r.q, old(r.q), r.interns, r.units, r.result.configPos, old(r.result.configPos), r.result.Values, old(r.result.Values), heap(Config), heap(byte))
